@@ -11,9 +11,11 @@
   * `plugs_never_freed_in_queue_phase`, `charging_needs_free_plug` — facts about one queued update;
   * `fifo` — if after the update phase `q` has left queue (station, plug) to charge there, then
     for every `q'` that joined that queue strictly earlier: a plug was free when `q'`'s turn came,
-    and `q'` is charging there too unless its own update failed (its transition was not enabled —
-    with the repaired `ChargeQueueing.enter` a queued vehicle is at the station (C07), has access
-    (C10) and can use the plug, so this only happens on an environment error).
+    and `q'` is no longer waiting either (`leftQueue`: it is charging there, or - being full, with
+    nothing to charge - it has left the queue for Idle) unless its own update failed (its
+    transition was not enabled — with the repaired `ChargeQueueing` a queued vehicle is at the
+    station (C07), has access (C10), can use the plug (F12) and is not sent to a plug it cannot
+    draw from when full (F23), so this only happens on an environment error).
 -/
 import Proofs.C18
 
@@ -37,7 +39,8 @@ theorem charging_needs_free_plug (env : Env) {w w2 : World} {v : VehicleId} {sid
     {cid : ChargerId} {t : Time} {veh veh' : Vehicle} (hwf : w.sim.WF) (hveh : w.sim.vehicle? v = some veh)
     (hact : veh.act = .chargeQueueing sid cid t)
     (h : defaultUpdate env w v (.chargeQueueing sid cid t) = .ok w2) (hv' : w2.sim.vehicle? v = some veh') :
-    veh'.act = .chargingStation sid cid ↔ 0 < availOf w.sim sid cid :=
+    (veh'.act = .chargingStation sid cid → 0 < availOf w.sim sid cid) ∧
+    (0 < availOf w.sim sid cid → leftQueue veh'.act sid cid) :=
   (queue_update_spec hwf hveh hact h).2 veh' hv'
 
 /-- **C18** at the level of the whole update phase -/
@@ -49,7 +52,7 @@ theorem fifo (env : Env) {w : World} (hwf : w.sim.WF) {q' q : Vehicle}
     ∃ wq' : World,   -- the state when q' 's turn came
       0 < availOf wq'.sim sid cid ∧
       ((∃ w2, defaultUpdate env wq' q'.id q'.act = .ok w2) →
-        ∃ veh, (vehicleUpdates env w).sim.vehicle? q'.id = some veh ∧ veh.act = .chargingStation sid cid) := by
+        ∃ veh, (vehicleUpdates env w).sim.vehicle? q'.id = some veh ∧ leftQueue veh.act sid cid) := by
   obtain ⟨pre, mid, post, hord⟩ := processing_order hq' hq ha' ha hlt
   -- split the update fold into the non-queueing part and the queue part
   have hvu : vehicleUpdates env w = qfold env (queueOrder w.sim.vehicles)
